@@ -255,7 +255,14 @@ def runLoad {β} [DecidableEq β] (E : Elem β) (bs : Bytes) (opts : List String
         | some v =>
           if bs.isEmpty then
             -- `Column::fill` asserts `len <= i64::MAX`
-            some (if n = 0 then (.ok [], true) else if n < two63 then (.ok [(n, v)], true) else (.panic .assertFailed, true))
+            -- and `WF::compute` of the one slab multiplies in the prefix accumulator type
+            let overflow := match E.wt, E.prefixLimit with
+              | some wt, some lim => decide ((wt v).toNat * n ≥ lim)
+              | _, _ => false
+            some (if n = 0 then (.ok [], true)
+                  else if ¬ (n < two63) then (.panic .assertFailed, true)
+                  else if overflow then (.panic .narrowing, true)
+                  else (.ok [(n, v)], true))
           else some (E.load (some n) bs, false)
     | some n, none => some (E.load (some n) bs, bs.isEmpty)
     | none, _ => some (E.load none bs, false)
